@@ -29,3 +29,36 @@ add("c19_reader_open", ["C19"], ["tu/reader_open.c", "$REPO/mtbl/metadata.c", "$
                  "file size <= 2^40 bytes (object-bits 10 leaves 54 offset bits); content arbitrary; both format versions (magic symbolic)",
                  "mtbl_crc32c reads exactly [buf, buf+size) (its own contract, C17)", "allocation never fails (--no-malloc-may-fail; /repo asserts on it)",
                  "every in-function pointer/bounds check is property-grade here; assert() stops of /repo are permitted outcomes (L)"])
+
+# ---------------------------------------------------------------- C20 write(2) fragmentation
+A_WRITE = "POSIX write(2) contract: returns -1 (any errno) or 0..count bytes accepted, in order (env assumption)"
+add("c20_write_all", ["C20"], ["tu/writer_wa.c"], "h_write_all", mode="dfcc", enforce="_write_all/_write_all__spec",
+    replace=["write/write__spec", "fprintf/fprintf__spec", "strerror/strerror__spec"], loops="loops/writer_wa.json",
+    unwind=8, strength="U", timeout=300,
+    functions=["_write_all"], assumptions=[A_WRITE, "termination under endless EINTR is not claimed (no decreases clause)"],
+    replay="c20")
+add("c20_write_block_frag", ["C20", "C09", "C10", "C12"], ["tu/writer_frag.c", "$REPO/mtbl/varint.c"], "h_write_block_frag",
+    unwind=12, strength="B: <= 2 fragmentation events (EINTR or short write of any length) per block, payload <= 8 bytes", timeout=300,
+    functions=["_mtbl_writer_write_block", "_write_all", "mtbl_varint_encode64"], assumptions=[A_WRITE], replay="c20")
+add("c20_write_block", ["C20", "C09", "C12"], ["tu/writer_dfcc.c", "$REPO/mtbl/varint.c"], "h_write_block", mode="dfcc",
+    enforce="_mtbl_writer_write_block/_mtbl_writer_write_block__spec", replace=["_write_all/_write_all__cap"],
+    unwind=12, strength="U", timeout=300,
+    functions=["_mtbl_writer_write_block", "mtbl_varint_encode64"],
+    assumptions=["_write_all is replaced by its capture contract (_write_all__cap); that it delivers the whole buffer is proved in group c20_write_all",
+                 "block payload length 1 .. 2^40"])
+
+# ---------------------------------------------------------------- writer induction steps (C08, C10, C09, C01, C12, C18, C20)
+WR_STEP_FUNCS = ["mtbl_writer_add", "_mtbl_writer_flush", "_mtbl_writer_compress_block", "_mtbl_writer_write_data_block",
+                 "_mtbl_writer_write_block", "_write_all", "_compress_block_wrapper", "_write_data_block_wrapper",
+                 "bytes_compare", "bytes_shortest_separator", "ubuf_* (libmy/vector.h)", "mtbl_varint_encode64"]
+WR_STEP_ASSUME = ["block builder replaced by its abstract contract (estimate grows by <= 15+len_key+len_val per add; finish size == estimate; reset empties) -- proved on the real builder in groups bb_*",
+                  "mtbl_crc32c / mtbl_compress / metadata_write replaced by capturing stubs (their own contracts: C17, C15, md_*)",
+                  "thread pool modelled by the synchronous in-order schedule (assumed contract of mtbl/threadpool.c: each job runs once, result delivered once, in order)",
+                  "write(2) completes in full here (fragmentation: group c20_*)", "key length <= 4 bytes (buffers are the real ubuf code); value length free (never read by writer.c)",
+                  "arbitrary initial state satisfying the writer invariant W => every history of earlier calls"]
+add("wr_add_step", ["C08", "C10", "C09", "C01", "C02", "C12", "C20"], ["tu/writer_step.c", "$REPO/mtbl/varint.c"], "h_writer_add_step",
+    unwind=12, strength="B: one mtbl_writer_add from an arbitrary writer state (all histories); key length <= 4", timeout=900,
+    functions=WR_STEP_FUNCS, assumptions=WR_STEP_ASSUME, replay="c08")
+add("wr_close_step", ["C10", "C09", "C01", "C12", "C18", "C20"], ["tu/writer_step.c", "$REPO/mtbl/varint.c"], "h_writer_close_step",
+    unwind=12, strength="B: mtbl_writer_destroy/_mtbl_writer_finish from an arbitrary writer state (all histories); key length <= 4", timeout=900,
+    functions=["mtbl_writer_destroy", "_mtbl_writer_finish"] + WR_STEP_FUNCS[1:], assumptions=WR_STEP_ASSUME, replay="c10")
